@@ -226,6 +226,11 @@ def analyse(ctx, C, fn, rep):
         C04_content.check_sorted_move(C, fn, name, dom, leaves, facts0, rep, getattr(ls, 'exit_roles', {}))
     except Unsupported as e:
         rep.unk('B8', name, str(e), loc=loc)
+    try:
+        from props import C04_sched
+        C04_sched.check(C, fn, name, dom, leaves, loop_leaves, facts0, rep)
+    except (Unsupported, fm.NonLinear) as e:
+        rep.unk('B11', name, str(e), loc=loc)
     sym = name
     if viol:
         # group by effect site: one finding per site
@@ -399,6 +404,7 @@ def run(ctx):
     rep.floor('B9', 6)
     rep.floor('B10', 6)
     rep.floor('B2', 50)
+    rep.floor('B11', 12)
 
 
 def sorted_guards(ctx, C, rep):
